@@ -362,7 +362,10 @@ def native_lexical_ok(key, lexical):
                '<xsd:attribute name="v" type="%s"/></xsd:complexType></xsd:element></xsd:schema>' % (nsdecl, imp, tref))
         _SCHEMA_CACHE[k] = etree.XMLSchema(etree.fromstring(doc.encode()))
     el = etree.Element("probe")
-    el.set("v", lexical)
+    try:
+        el.set("v", lexical)
+    except ValueError:
+        return False  # not XML-compatible (control characters, NUL): such a string cannot occur in a document at all
     return _SCHEMA_CACHE[k].validate(el)
 
 
